@@ -33,4 +33,5 @@ Extraction "jv.ml"
   cal_of date_of at_ymd_spec at_ordinal_date_spec year_count year_kind_of ykind_gen month_shape_spec shape_of month_count
   sh_len sh_in sh_nth sh_ord sh_first sh_last sh_natural sh_gap is_old lbl jlabel glabel ordinal_of day_ordinal_of
   natural_len incalb month_days msum jdn_of_ordinal
-  month_names_spec weekday_names_spec enum_q_spec.
+  month_names_spec weekday_names_spec enum_q_spec ykind_flags
+  YearKind_is_leap YearKind_is_common YearKind_is_reform YearKind_is_skipped.
